@@ -118,6 +118,15 @@ func isString(t types.Type) bool {
 	return ok && b.Info()&types.IsString != 0
 }
 
+func isRuneSlice(t types.Type) bool {
+	s, ok := t.Underlying().(*types.Slice)
+	if !ok {
+		return false
+	}
+	b, ok := s.Elem().Underlying().(*types.Basic)
+	return ok && b.Kind() == types.Int32
+}
+
 func isByteSlice(t types.Type) bool {
 	s, ok := t.Underlying().(*types.Slice)
 	if !ok {
